@@ -10,36 +10,49 @@ from ..core import Ctx, Prop
 ACTIONS = ["connect", "refused", "enter", "enter-refused", "op-ok", "op-raises", "leave", "body-raises", "disconnect", "refused-while-connected"]
 
 
-def words(n):
-    """All action words of length n that a test program can execute (state: none/open/closed x in-context)."""
+def words(n, resets=False):
+    """All action words of length n that a test program can execute (state: none/open/closed x in-context).
+    resets=True: only the words in which the device resets the session at least once (state reset: only a disconnect of some
+    kind may follow; state limbo after it: only a connect / enter that the device accepts)."""
     out = []
 
-    def rec(prefix, is_open, in_ctx):
+    def rec(prefix, st, in_ctx, seen):
         if len(prefix) == n:
-            out.append(list(prefix))
+            if seen == resets:
+                out.append(list(prefix))
             return
-        for a in ACTIONS:
+        is_open = st == "open"
+        for a in ACTIONS + (["op-reset"] if resets else []):
+            if st == "reset" and a not in ("leave", "body-raises", "disconnect"):
+                continue
+            if st == "limbo" and a not in ("connect", "enter"):
+                continue
+            after_close = "limbo" if st == "reset" else "closed"
             if a in ("connect", "refused"):
                 if is_open or in_ctx:
                     continue
-                rec(prefix + [a], a == "connect", False)
+                rec(prefix + [a], "open" if a == "connect" else st, False, seen)
             elif a in ("enter", "enter-refused"):
                 if is_open or in_ctx:
                     continue
-                rec(prefix + [a], a == "enter", a == "enter")
+                rec(prefix + [a], "open" if a == "enter" else st, a == "enter", seen)
             elif a in ("op-ok", "op-raises", "refused-while-connected"):
                 if not is_open:
                     continue
-                rec(prefix + [a], True, in_ctx)
+                rec(prefix + [a], st, in_ctx, seen)
+            elif a == "op-reset":
+                if not is_open:
+                    continue
+                rec(prefix + [a], "reset", in_ctx, True)
             elif a in ("leave", "body-raises"):
                 if not in_ctx:
                     continue
-                rec(prefix + [a], False, False)
+                rec(prefix + [a], after_close, False, seen)
             else:
                 if in_ctx:
                     continue
-                rec(prefix + [a], False, False)
-    rec([], False, False)
+                rec(prefix + [a], after_close, False, seen)
+    rec([], "none", False, False)
     return out
 
 
@@ -64,10 +77,14 @@ class C18(Prop):
     rule = ("every executable action word up to length 5 (thorough: 7) over {connect, refused connect, enter, refused enter, "
             "successful operation, operation that raises, leaving the context, leaving it through an exception in the body, "
             "disconnect} for both API types on the virtual network, plus a seeded sample of the same words over real loopback "
-            "TCP (real end-of-stream at the fake device, real refusal); `connected` is read after every action. "
+            "TCP (real end-of-stream at the fake device, real refusal); every executable word up to length 5 (6) in which the device "
+            "RESETS the session in the middle of an operation (virtual: connection_lost(ConnectionResetError); a seventh (third) of "
+            "them over loopback with a real RST); `connected`, and whether the device has seen the end of the stream, are read "
+            "after every action; a successful connect must show up in the device's accept count. "
             "distinct = distinct events; non-trivial = connect / disconnect / flag observations")
     assumptions = [
         "a SUCCESSFUL connect while already connected is outside the statement's alphabet; a refused one is in it (nothing may change)",
+        "disconnecting a session the device has reset is outside the statement (the pinned library raises from wait_closed() and keeps the flag): not judged, and `connected` is open until the next successful connect",
         "a refused connection is produced by closing the listening socket at the device's address for the duration of the call",
         "loopback portion: 127.x.y.z:9957/10000 private to this process; end-of-stream is awaited for at most 2 s",
     ]
@@ -89,11 +106,13 @@ class C18(Prop):
         # the device resets the session in the middle of an operation (virtual: connection_lost(ConnectionResetError);
         # loopback: SO_LINGER 0 + close = a real RST)
         rs = reset_words()
+        for n in range(2, ctx.pick(5, 6) + 1):          # ... and every executable word with a reset in it, up to that length
+            rs += [w for w in words(n, resets=True) if w not in rs]
         for api in (1, 2):
             for w in rs:
                 k += 1
                 out.append({"api": api, "mode": "virtual", "word": w, "seed": k})
-        for n, w in enumerate(ctx.pick(rs[::3], rs)):
+        for n, w in enumerate(ctx.pick(rs[::7], rs[::3])):
             out.append({"api": 1 + n % 2, "mode": "loopback", "word": w, "seed": 200000 + n})
         sample = ctx.rng.sample(allw, min(len(allw), ctx.pick(120, 1500)))
         for n, w in enumerate(sample):
